@@ -2,14 +2,28 @@
 
     python -m vf.props._c06_driver LOG.json SCHED.json -- <sumtrees arguments>
 
-Monkey-patches (inherited by the forked workers):
-  * TreeAnalysisWorker.run  -> sleeps SCHED[name]["pre"] before the worker touches the work queue,
-    routes results_queue.put through a SCHED[name]["post"] delay, records which files the worker read
-    (attached to the TreeArray it sends back), and - fault injection at the existing suspension point -
-    makes work_queue.get_nowait() raise queue.Empty once if SCHED[name]["spurious_empty"] (which
-    multiprocessing.Queue is documented to do while its feeder thread has not flushed yet);
-  * TreeArray.update in the parent -> arrival log (worker, n_trees, rooting of partial, len(master) before).
-Delays sit only where the program already yields (queue get, queue put)."""
+The library's protocol (sumtrees.py, TreeProcessor.parallel_analyze_trees / TreeAnalysisWorker.run): the parent puts
+every source and then one ``None`` sentinel per worker on the work queue; a worker blocks in ``work_queue.get()``,
+reads the file it received, and retires on a sentinel; it then puts its TreeArray (or the exception it hit) on the
+results queue; the parent collates with TreeArray.update in arrival order.  The suspension points are therefore
+(1) every ``work_queue.get`` and (2) ``results_queue.put``.  Monkey-patches (inherited by the forked workers):
+
+  * TreeAnalysisWorker.run -> work_queue / results_queue replaced by proxies.
+      - SCHED["get_order"]  = [worker name, ...]: the k-th ``get`` that is served belongs to that worker (a worker waits
+        at the suspension point until it is its turn) - this decides WHICH WORKER READS WHICH FILE and which worker is
+        left with a sentinel only;  SCHED["put_order"] = [worker name, ...]: order in which results are put, i.e. the
+        ARRIVAL ORDER of the partial results.  The turn counters are multiprocessing.Value objects created before the
+        fork.  A turn that does not come within SCHED["gate_timeout"] seconds (protocol of the code under test differs
+        from the one the schedule was written for, or a worker died) breaks the gate: everybody runs freely from then
+        on and the log says so.  The gate never decides a verdict - the arrival log does.
+      - SCHED["workers"][name] = {"pre": s, "hold": s, "post": s, "spurious_empty": n}: sleep before the first get,
+        after every received file, before the put (natural, OS-decided schedules with a bias);  spurious_empty: the
+        next n NON-BLOCKING polls of the work queue (get_nowait, get(block=False), get(timeout=...)) raise queue.Empty,
+        which multiprocessing.Queue may legitimately do while the feeder thread has not flushed.  A blocking get()
+        without timeout is never made to raise (it cannot, in the real queue).
+      - records which files the worker read (attached to the TreeArray it sends back).
+  * TreeArray.update in the parent -> arrival log (worker, n_trees, rooting of partial, len(master) before/after).
+Delays and gates sit only where the program already yields (queue get, queue put)."""
 import json
 import queue
 import sys
@@ -17,38 +31,85 @@ import time
 import traceback
 
 
-class QueueProxy(object):
-    def __init__(self, q, spurious, files_log):
-        self._q = q
-        self._spurious = spurious
-        self._files_log = files_log
+class Gate(object):
+    """turn-taking over a shared counter: order[i] is the name whose operation is served i-th."""
 
-    def get_nowait(self):
-        if self._spurious > 0:
+    def __init__(self, order, counter, broken, timeouts, timeout):
+        self.order = list(order or [])
+        self.counter = counter
+        self.broken = broken
+        self.timeouts = timeouts
+        self.timeout = timeout
+
+    def wait(self, me):
+        """True when this operation holds the turn (call done() afterwards)."""
+        if not self.order:
+            return False
+        deadline = time.monotonic() + self.timeout
+        while True:
+            if self.broken.value:
+                return False
+            i = self.counter.value
+            if i >= len(self.order):
+                return False
+            if self.order[i] == me:
+                return True
+            if time.monotonic() > deadline:
+                self.broken.value = 1
+                with self.timeouts.get_lock():
+                    self.timeouts.value += 1
+                return False
+            time.sleep(0.002)
+
+    def done(self):
+        with self.counter.get_lock():
+            self.counter.value += 1
+
+
+class QueueProxy(object):
+    def __init__(self, q, cfg, files_log, gate, me):
+        self._q = q
+        self._spurious = int(cfg.get("spurious_empty", 0))
+        self._hold = cfg.get("hold", 0)
+        self._files_log = files_log
+        self._gate = gate
+        self._me = me
+
+    def _serve(self, fn, nonblocking):
+        if nonblocking and self._spurious > 0:
             self._spurious -= 1
             raise queue.Empty()
-        item = self._q.get_nowait()
-        self._note(item)
-        return item
-
-    def get(self, *a, **kw):
-        item = self._q.get(*a, **kw)
-        self._note(item)
-        return item
-
-    def _note(self, item):
+        mine = self._gate.wait(self._me) if self._gate is not None else False
+        try:
+            item = fn()
+        except queue.Empty:
+            # a poll that found nothing does not use up the turn
+            raise
+        if mine:
+            self._gate.done()
         if isinstance(item, str):
             self._files_log.append(item)
+            if self._hold:
+                time.sleep(self._hold)
+        return item
+
+    def get_nowait(self):
+        return self._serve(self._q.get_nowait, True)
+
+    def get(self, block=True, timeout=None):
+        return self._serve(lambda: self._q.get(block, timeout), (not block) or timeout is not None)
 
     def __getattr__(self, name):
         return getattr(self._q, name)
 
 
 class PutProxy(object):
-    def __init__(self, q, delay, worker):
+    def __init__(self, q, delay, worker, gate, arrived):
         self._q = q
         self._delay = delay
         self._worker = worker
+        self._gate = gate
+        self._arrived = arrived
 
     def put(self, obj, *a, **kw):
         if self._delay:
@@ -58,7 +119,19 @@ class PutProxy(object):
             obj.vf_worker = self._worker.name
         except Exception:
             pass
-        return self._q.put(obj, *a, **kw)
+        mine = self._gate.wait(self._worker.name) if self._gate is not None else False
+        before = self._arrived.value
+        try:
+            return self._q.put(obj, *a, **kw)
+        finally:
+            if mine:
+                # the turn passes on when the parent has taken this result (it counts arrivals), so that the feeder
+                # threads of two workers cannot overtake each other; bounded wait - a parent that does not collate
+                # this result (exception object, other protocol) must not stall the schedule
+                deadline = time.monotonic() + 1.0
+                while self._arrived.value <= before and time.monotonic() < deadline:
+                    time.sleep(0.002)
+                self._gate.done()
 
     def __getattr__(self, name):
         return getattr(self._q, name)
@@ -71,16 +144,24 @@ def main(argv):
         sched = json.load(f)
     from vf import core
     core.ensure_repo_on_path()
+    import multiprocessing
     import dendropy
     from dendropy.application import sumtrees
     arrivals = []
+    wcfg = sched.get("workers", {})
+    timeout = float(sched.get("gate_timeout", 4.0))
+    broken = multiprocessing.Value("i", 0)
+    timeouts = multiprocessing.Value("i", 0)
+    get_gate = Gate(sched.get("get_order"), multiprocessing.Value("i", 0), broken, timeouts, timeout)
+    put_gate = Gate(sched.get("put_order"), multiprocessing.Value("i", 0), broken, timeouts, timeout)
+    arrived = multiprocessing.Value("i", 0)
     orig_run = sumtrees.TreeAnalysisWorker.run
 
     def run(self):
-        cfg = sched.get(self.name, {})
+        cfg = wcfg.get(self.name, {})
         self._vf_files = []
-        self.work_queue = QueueProxy(self.work_queue, int(cfg.get("spurious_empty", 0)), self._vf_files)
-        self.results_queue = PutProxy(self.results_queue, cfg.get("post", 0), self)
+        self.work_queue = QueueProxy(self.work_queue, cfg, self._vf_files, get_gate, self.name)
+        self.results_queue = PutProxy(self.results_queue, cfg.get("post", 0), self, put_gate, arrived)
         if cfg.get("pre"):
             time.sleep(cfg["pre"])
         return orig_run(self)
@@ -93,6 +174,8 @@ def main(argv):
                "rooting": other._is_rooted_trees, "master_len_before": len(self),
                "master_rooting_before": self._is_rooted_trees}
         arrivals.append(rec)
+        with arrived.get_lock():
+            arrived.value += 1
         try:
             r = orig_update(self, other)
         except Exception as e:
@@ -112,6 +195,10 @@ def main(argv):
         out["exit"] = 1
         out["exception"] = "%s: %s" % (type(e).__name__, e)
         out["traceback"] = traceback.format_exc()[-2000:]
+    out["gate_broken"] = bool(broken.value)
+    out["gate_timeouts"] = int(timeouts.value)
+    out["gets_served_in_turn"] = int(get_gate.counter.value)
+    out["puts_served_in_turn"] = int(put_gate.counter.value)
     with open(log_path, "w") as f:
         json.dump(out, f)
 
